@@ -39,6 +39,7 @@ m = {
         {"name": "E1", "path": "fsmon/workloads/e1.py", "serves_properties": ["C01", "C02", "C04", "C05", "C06", "C07", "C11", "C18"],
          "kind_free_text": "randomised hostile client histories on one store, monitored by ShadowStore"},
         {"name": "E1p", "path": "fsmon/workloads/e1p.py", "serves_properties": ["C05"], "kind_free_text": "client histories on PriorityReqStore (request order oracle by polling)"},
+        {"name": "E2p", "path": "fsmon/workloads/e2p.py", "serves_properties": ["C05"], "kind_free_text": "exhaustive priority / arrival-order / cancellation sweep"},
         {"name": "E2", "path": "fsmon/workloads/e2.py", "serves_properties": ["C01", "C02", "C04", "C05", "C06", "C07"], "kind_free_text": "small-scope exhaustive operation sequences on the real stores (stateless DFS by re-execution)"},
         {"name": "E3", "path": "fsmon/workloads/e3.py", "serves_properties": ["C03", "C08", "C09", "C10", "C11", "C15", "C16", "C17", "C18"], "kind_free_text": "random factories under the ledger oracles"},
         {"name": "E4", "path": "fsmon/workloads/e4.py", "serves_properties": ["C12", "C13"], "kind_free_text": "scripted conveyor producer/consumer"},
